@@ -1500,6 +1500,15 @@ func (rl *Shell) dumpVariables() {
 	if rl.Iterations.IsSet() {
 		for _, variable := range variables {
 			value := rl.Config.Vars[variable]
+
+			// Booleans are read back as "on" or "off" only.
+			if enabled, ok := value.(bool); ok {
+				value = "off"
+				if enabled {
+					value = "on"
+				}
+			}
+
 			fmt.Printf("set %s %v\n", variable, value)
 		}
 	} else {
